@@ -88,3 +88,15 @@ HARNESSES = [
          bounds="arbitrary tree of %d entries satisfying T, arbitrary build state satisfying B, %d arbitrary code lengths (real size)" % (tl, nc))
     for tag, d, tl, nc in [("pm2code", ["ELEM8", "TL=65", "NC=31"], 65, 31), ("lhtemp", ["TL=62", "NC=31"], 62, 31)]
 ]
+
+# parts built separately (lh1: plan/C09_lh1.py, lh_new family: plan/C09_lhnew.py)
+try:
+    from C09_lh1 import HARNESSES_LH1
+    HARNESSES += HARNESSES_LH1
+except ImportError:
+    pass
+try:
+    from C09_lhnew import HARNESSES_LHNEW
+    HARNESSES += HARNESSES_LHNEW
+except ImportError:
+    pass
